@@ -13,7 +13,7 @@ FEATURES = {
     "C05": dict(stamp=0.15, always=0.1, fail=0.55, exitfail=0.2, ifcreate=0.1, default=0.3),
     "C11": dict(stamp=0.2, always=0.1, fail=0.1, ifcreate=0.2, default=0.7, symlink=0.3, handedit2=0.1),
     "C14": dict(stamp=0.2, always=0.5, fail=0.05, ifcreate=0.8, default=0.2),
-    "C17": dict(stamp=0.4, always=0.1, fail=0.2, ifcreate=0.3, default=0.4),
+    "C17": dict(stamp=0.4, always=0.1, fail=0.2, ifcreate=0.3, default=0.4, editrm=0.08, handedit2=0.04),
 }
 NCASES = {"C01": 70, "C02": 60, "C03": 60, "C05": 60, "C11": 60, "C14": 60, "C17": 60}
 WANT = {"C01": {"C01"}, "C02": {"C02", "C05"}, "C03": {"C03", "C01"}, "C05": {"C05"}, "C11": {"C11"}, "C14": {"C14"}, "C17": {"C17"}}
